@@ -1,5 +1,6 @@
 From CubedV Require Import Model.Util Model.Keys Model.Fusion Model.Memory Model.Dag Model.AllocTrace.
 From CubedV Require Import Proofs.MemoryProofs Proofs.AllocProofs Proofs.FusedTreeProofs.
+From CubedV Require Import Model.PartialReduce Proofs.PartialReduceProofs.
 Local Open Scope Z_scope.
 
 (* T0: for a task whose every argument is one block or a stream of blocks, the modelled peak
@@ -131,4 +132,35 @@ Print Assumptions C03_safe_projection_bounds.
 Example C03_ex_right_fold_4_terms : (tree_task_peak 1 1 (right_fold 1 3), tree_projected 1 1 (right_fold 1 3)) = (9, 8).
 Proof. vm_compute; reflexivity. Qed.
 Example C03_ex_left_fold_4_terms : (tree_task_peak 1 1 (left_fold 1 3), tree_projected 1 1 (left_fold 1 3)) = (7, 6).
+Proof. vm_compute; reflexivity. Qed.
+
+(* D22 (repaired): one task of partial_reduce as _partial_reduce runs it (Model.PartialReduce, tied to
+   the real function's measured peak and to the real projected_mem by two correspondences) *)
+Theorem C03_pr_task_peak_bounded : forall rc wc x R wi k, 0 <= rc -> 1 <= wc -> 0 <= x -> 0 <= R ->
+  pr_task_peak rc wc x R R wi k <= pr_projected 0 rc wc x R wi.
+Proof. exact (pr_task_peak_bounded). Qed.
+Print Assumptions C03_pr_task_peak_bounded.
+
+Theorem C03_pr_old_refuted : pr_task_peak 1 1 1 8 8 true 2 > pr_projected_old 0 1 1 1 8.
+Proof. exact (pr_old_refuted). Qed.
+Print Assumptions C03_pr_old_refuted.
+
+(* before the repair the projection held exactly when a reduced chunk was at most three input chunks *)
+Theorem C03_pr_old_bound_iff : forall x R k, 0 <= x -> 0 <= R -> (2 <= k)%nat ->
+  (pr_task_peak 1 1 x R R true k <= pr_projected_old 0 1 1 x R <-> R <= 3 * x).
+Proof. exact (pr_old_bound_iff). Qed.
+Print Assumptions C03_pr_old_bound_iff.
+
+Theorem C03_pr_peak_closed : forall rc wc x R k, 0 <= rc -> 0 <= wc -> 0 <= x -> 0 <= R -> (3 <= k)%nat ->
+  pr_task_peak rc wc x R R true k
+  = Z.max (3 * R + x * rc + x) (Z.max (4 * R + x) (Z.max (5 * R) (R + R * wc))).
+Proof. exact (pr_peak_closed). Qed.
+Print Assumptions C03_pr_peak_closed.
+
+Theorem C03_pr_projected_reserved : forall res rc wc x R wi, pr_projected res rc wc x R wi = res + pr_projected 0 rc wc x R wi.
+Proof. exact (pr_projected_reserved). Qed.
+Print Assumptions C03_pr_projected_reserved.
+
+(* uint8 -> uint64 over one-row chunks (R = 8 x): 5 R = 40 allocated; projected 35 before, 51 after the repair *)
+Example C03_ex_partial_reduce_thin : (pr_task_peak 0 1 1 8 8 true 4, pr_projected_old 0 1 1 1 8, pr_projected 0 1 1 1 8 true) = (40, 35, 51).
 Proof. vm_compute; reflexivity. Qed.
